@@ -239,7 +239,10 @@ def run_check(args, plan_items, work, PLAN):
     other_prop = collections.Counter()
     for r in results:
         agg.add(r)
-        agg.log.update(repr((r["key"], sorted(engine.sig(v) for v in r["viol"]), (r["stats"] or {}).get("interleaving"))).encode())
+        st_ = r["stats"] or {}
+        agg.log.update(repr((r["key"], sorted(engine.sig(v) for v in r["viol"]), st_.get("interleaving"), st_.get("ops"), st_.get("raised"),
+                             st_.get("points"), sorted((st_.get("natural_exc") or {}).items()), sorted((st_.get("faults_fired") or {}).items()),
+                             hashlib.sha256(repr(st_.get("cells")).encode()).hexdigest()[:12])).encode())
         if r["harness"]:
             agg.harness.extend(f"{r['key']}: {h}" for h in r["harness"])
         if any(v["prop"] == prop for v in r["viol"]):
